@@ -24,6 +24,11 @@ Theorem lib_function_is_documented : forall (R : PhaseRing) fn name ar0 m, In (f
 Proof. exact fn_doc. Qed.
 Print Assumptions lib_function_is_documented.
 
+(* the deprecated `N=..., target=...` form of a gate function embeds the function's own matrix (the embedding itself is C08) *)
+Theorem lib_expansion_embeds_gate : forall (R : PhaseRing) fn inner own, In (fn, (inner, own)) expansions -> agrees R inner own.
+Proof. exact expansion_embeds_gate. Qed.
+Print Assumptions lib_expansion_embeds_gate.
+
 Theorem lib_paths_agree : forall (R : PhaseRing) name m1 cls m2, In (name, m1) dispatch -> In (name, cls) class_map ->
   assoc cls class_mat = Some m2 -> agrees R m1 m2.
 Proof. exact paths_agree. Qed.
